@@ -5,6 +5,10 @@ from .. import flat, gen, schemas
 def pick_schema(rnd, random_share=0.25, ids=None, weights=None):
     """A catalogue schema, or (with probability random_share) a random well-founded one."""
     if random_share and rnd.random() < random_share:
+        if rnd.random() < 0.2:
+            # mark-centred schema: textblocks with different mark permissions and (often) an
+            # inline node that has content of its own
+            return schemas.mark_schema(rnd)
         return schemas.random_schema(rnd)
     ids = ids or schemas.ids()
     return schemas.get(rnd.choice(ids))
